@@ -4,6 +4,7 @@ import (
 	"encoding/base64"
 	"fmt"
 	"math/rand"
+	"os"
 	"strconv"
 	"strings"
 	"time"
@@ -27,13 +28,13 @@ const (
 
 // symbolic NTLM operation
 type nop struct {
-	sess string
-	kind string // neg | negbad | auth | authas | authbad | b64bad | garbage | empty
+	sess           string
+	kind           string // neg | negbad | auth | authas | authbad | b64bad | garbage | empty
 	keyUser, keyPw string // authas: the response is computed with (keyUser, keyPw), the message names [user]
-	user string
-	pw   string
-	from int // index (1-based) of the negotiate step whose challenge is answered
-	wait int // seconds to wait before the step (expiry runs)
+	user           string
+	pw             string
+	from           int // index (1-based) of the negotiate step whose challenge is answered
+	wait           int // seconds to wait before the step (expiry runs)
 }
 
 func (o nop) String() string {
@@ -182,6 +183,8 @@ func streamC14(env *runEnv) {
 		{{Username: "alice", Password: "wonderland"}},
 		{{Username: "alice", Password: "wonderland"}, {Username: "bob", Password: ""}, {Username: "carol", Password: "pässwörd"}},
 		{},
+		// configured passwords are literal strings: '$' and '%' mean nothing
+		{{Username: "alice", Password: "wonderland"}, {Username: "dave", Password: "pa$$w0rd$HOME"}, {Username: "erin", Password: "$HOME"}, {Username: "frank", Password: "${USER}%PATH%"}},
 	}
 	dbSpec := func(db []authconfig.UserConfig) string {
 		var p []string
@@ -297,6 +300,22 @@ func streamC14(env *runEnv) {
 		}
 	}
 	rec(nil)
+	// (a2) literal passwords with shell metacharacters, and what an expansion would make of them
+	for _, up := range [][2]string{{"dave", "pa$$w0rd$HOME"}, {"dave", "paw0rd"}, {"dave", "pa$$w0rd" + os.Getenv("HOME")}, {"erin", "$HOME"}, {"erin", os.Getenv("HOME")}, {"erin", ""},
+		{"frank", "${USER}%PATH%"}, {"frank", os.Getenv("USER") + "%PATH%"}, {"frank", "%PATH%"}} {
+		jobs = append(jobs, job{dbs[3], []nop{{sess: sessA, kind: "neg"}, {sess: sessA, kind: "auth", user: up[0], pw: up[1], from: 1}}})
+	}
+	// (a3) many rejected proofs for a user, from several sessions, then the configured password in a fresh session
+	for _, fails := range []int{4, 5, 6, 12} {
+		var ops []nop
+		for k := 0; k < fails; k++ {
+			sess := []string{sessA, sessB}[k%2]
+			ops = append(ops, nop{sess: sess, kind: "neg"}, nop{sess: sess, kind: "auth", user: "alice", pw: "wrong", from: len(ops) + 1})
+		}
+		ops = append(ops, nop{sess: sessC, kind: "neg"}, nop{sess: sessC, kind: "auth", user: "alice", pw: "wonderland", from: len(ops) + 1})
+		ops = append(ops, nop{sess: sessA, kind: "neg"}, nop{sess: sessA, kind: "auth", user: "carol", pw: "pässwörd", from: len(ops) + 1})
+		jobs = append(jobs, job{dbs[1], ops})
+	}
 	// (b) random histories
 	nh := 1500
 	if env.thorough() {
